@@ -290,9 +290,9 @@ def recordVal (elems : List TextKind) (record : List Val) : Val :=
 /-- `MultiSpec.read`: `while data:` read a record.  A record that consumes nothing (only
 possible with an empty spec list) would loop forever in Python: `.diverge`. -/
 def readMulti (h : Hdr) (c : Ctx) (elems : List TextKind) (data : Bytes) : Except PyErr (List Val) :=
-  if hd : data = [] then .ok []
+  if data = [] then .ok []
   else
-    match hr : readRecord h c elems data with
+    match readRecord h c elems data with
     | .error e => .error e
     | .ok (record, d') =>
       if hlt : d'.length < data.length then
@@ -353,7 +353,7 @@ def writeLatin1s : List Val → Except PyErr Bytes
 /-! ### SynchronizedTextSpec -/
 
 def readSyncText (enc : Nat) (data : Bytes) : Except PyErr (List Val) :=
-  if hd : data = [] then .ok []
+  if data = [] then .ok []
   else
     match decodeTerminated enc true data with
     | .error _ => .error .mutagen
@@ -367,15 +367,41 @@ def readSyncText (enc : Nat) (data : Bytes) : Except PyErr (List Val) :=
 termination_by data.length
 decreasing_by simpa using hlt
 
+/-- a `(text, int)` tuple -/
+def textIntPair (v : Val) : Option (Text × Int) :=
+  match v with
+  | .list l =>
+    match l with
+    | [a, b] =>
+      match a, b with
+      | .text t, .int i => some (t, i)
+      | _, _ => none
+    | _ => none
+  | _ => none
+
+/-- an `(int, int)` tuple -/
+def intIntPair (v : Val) : Option (Int × Int) :=
+  match v with
+  | .list l =>
+    match l with
+    | [a, b] =>
+      match a, b with
+      | .int x, .int y => some (x, y)
+      | _, _ => none
+    | _ => none
+  | _ => none
+
 def writeSyncText (c : Ctx) : List Val → Except PyErr Bytes
   | [] => .ok []
-  | .list [.text t, .int time] :: vs =>
-    match writeEncText c t, packU 4 time, writeSyncText c vs with
-    | .ok a, .ok b, .ok r => .ok (a ++ b ++ r)
-    | .error e, _, _ => .error e
-    | _, .error e, _ => .error e
-    | _, _, .error e => .error e
-  | _ :: _ => .error .type_
+  | v :: vs =>
+    match textIntPair v with
+    | none => .error .type_
+    | some (t, time) =>
+      match writeEncText c t, packU 4 time, writeSyncText c vs with
+      | .ok a, .ok b, .ok r => .ok (a ++ b ++ r)
+      | .error e, _, _ => .error e
+      | _, .error e, _ => .error e
+      | _, _, .error e => .error e
 
 /-! ### KeyEventSpec: `struct ">bI"` records -/
 
@@ -386,13 +412,15 @@ def readKeyEvents : Bytes → List Val × Bytes
 
 def writeKeyEvents : List Val → Except PyErr Bytes
   | [] => .ok []
-  | .list [.int ty, .int time] :: vs =>
-    match packS 1 ty, packU 4 time, writeKeyEvents vs with
-    | .ok a, .ok b, .ok r => .ok (a ++ b ++ r)
-    | .error e, _, _ => .error e
-    | _, .error e, _ => .error e
-    | _, _, .error e => .error e
-  | _ :: _ => .error .struct_
+  | v :: vs =>
+    match intIntPair v with
+    | none => .error .struct_
+    | some (ty, time) =>
+      match packS 1 ty, packU 4 time, writeKeyEvents vs with
+      | .ok a, .ok b, .ok r => .ok (a ++ b ++ r)
+      | .error e, _, _ => .error e
+      | _, .error e, _ => .error e
+      | _, _, .error e => .error e
 
 /-! ### VolumeAdjustmentsSpec (EQU2): `struct ">Hh"` records; read builds a dict keyed by
 frequency and returns its items sorted; write sorts the list first -/
@@ -416,11 +444,13 @@ def readVolAdjs (data : Bytes) : Val × Bytes :=
 
 def adjPairs : List Val → Except PyErr (List (Int × Int))
   | [] => .ok []
-  | .list [.int f, .int a] :: vs =>
-    match adjPairs vs with
-    | .ok r => .ok ((f, a) :: r)
-    | .error e => .error e
-  | _ :: _ => .error .type_
+  | v :: vs =>
+    match intIntPair v with
+    | none => .error .type_
+    | some p =>
+      match adjPairs vs with
+      | .ok r => .ok (p :: r)
+      | .error e => .error e
 
 def pairLe (p q : Int × Int) : Bool := decide (p.1 < q.1) || (decide (p.1 = q.1) && decide (p.2 ≤ q.2))
 
